@@ -420,12 +420,41 @@ Proof.
     split; [exact HT|]. rewrite N.eqb_refl. destruct (N.eqb_spec f lbl); [contradiction|]. now left.
 Qed.
 
-Theorem caller_feats lbl T f :
-  In f (feats (build_inst lbl T)) <-> f <> lbl /\ exists s, In (Plain f, Plain lbl, s) T.
+Theorem caller_feats lbl T d f : build_inst lbl T = Some d ->
+  (In f (feats d) <-> f <> lbl /\ exists s, In (Plain f, Plain lbl, s) T).
 Proof.
-  rewrite feats_keys. unfold build_inst. cbn [rel].
+  unfold build_inst. destruct (caller_degenerate lbl T); [discriminate|]. intros H. injection H as <-.
+  rewrite feats_keys. unfold build_inst_total. cbn [rel].
   rewrite fold_set1_keys, norm1_keys, relevance_rows_keys. cbn [map In]. tauto.
 Qed.
+
+(* exactly when a non-empty table has min == max there is no instance *)
+Lemma degenerate_iff l : degenerate l = true <-> l <> [] /\ qmin l == qmax l.
+Proof.
+  unfold degenerate. destruct l as [|a t].
+  - split; [discriminate|intros [H _]; congruence].
+  - rewrite Qeq_bool_iff. split; [intros H; split; [discriminate|exact H]|intros [_ H]; exact H].
+Qed.
+
+Theorem caller_none lbl T : build_inst lbl T = None <->
+  degenerate (map snd (relevance_rows lbl T)) = true \/ degenerate (map snd (relation_rows lbl T)) = true
+  \/ degenerate (map snd (redundancy_rows lbl T)) = true.
+Proof.
+  unfold build_inst, caller_degenerate.
+  destruct (degenerate (map snd (relevance_rows lbl T))); destruct (degenerate (map snd (relation_rows lbl T)));
+    destruct (degenerate (map snd (redundancy_rows lbl T))); cbn; intuition discriminate.
+Qed.
+
+(* two features with the same relevance: the code's 0/0; no instance *)
+Example caller_degenerate_example :
+  build_inst 9%N [(Plain 1%N, Plain 9%N, 1 # 2); (Plain 2%N, Plain 9%N, 1 # 2); (Plain 1%N, Plain 2%N, 1 # 4); (Plain 2%N, Plain 2%N, 3 # 4)] = None.
+Proof. vm_compute. reflexivity. Qed.
+(* the later row of a repeated key wins, the first insertion position is kept *)
+Example caller_last_row_wins :
+  option_map (fun d => (map fst (rel d), Qred (relv d 1%N), Qred (relv d 2%N)))
+    (build_inst 9%N [(Plain 1%N, Plain 9%N, 0); (Plain 2%N, Plain 9%N, 1); (Plain 1%N, Plain 9%N, 1 # 2)])
+  = Some ([1%N; 2%N], 1 # 2, 1).
+Proof. vm_compute. reflexivity. Qed.
 
 (* ---------- non-vacuity ---------- *)
 Example ex_inst : inst :=
